@@ -27,7 +27,7 @@ ASSUMPTIONS = [
     "data never lives at host offset 0 of the qcow2 file itself (the header is there)",
 ]
 
-BITMAP_FAMILIES = ["all", "none", "alt", "alt2", "random", "single", "prefix", "suffix", "mid", "zero-mix"]
+BITMAP_FAMILIES = ["all", "none", "alt", "alt2", "random", "single", "prefix", "suffix", "mid", "zero-mix", "free-tail", "free-head"]
 
 
 def budget(tier):
@@ -62,6 +62,17 @@ def bitmap(draw):
         return [run, 0] if draw(st.booleans()) else [m & ~run, run]
     alloc = draw(st.integers(0, m))
     zero = draw(st.integers(0, m)) & ~alloc
+    if fam in ("free-tail", "free-head"):
+        # a run of unallocated sub-clusters up to the end (from the start) of the cluster, next to zero / allocated ones
+        k = draw(st.sampled_from([1, 2, 3, 8, 16, 29, 30, 31]))
+        keep = (1 << k) - 1 if fam == "free-tail" else m & ~((1 << k) - 1)
+        top = 1 << (k - 1) if fam == "free-tail" else 1 << k
+        which = draw(st.sampled_from(["zero", "alloc", "mixed"]))
+        if which == "zero":
+            return [0, (zero | alloc | top) & keep] if draw(st.booleans()) else [0, top]
+        if which == "alloc":
+            return [(alloc | top) & keep, 0]
+        return [alloc & keep & ~top, (zero | top) & keep]
     if fam == "zero-mix":
         return [alloc & 0xFFFF0000, zero]
     return [alloc, zero]
